@@ -99,34 +99,36 @@ def s3(ck, an):
     subj = fa.f.short
     x = fa.f.params[1]
     rets = returns_in(fa)
-    if len(rets) != 1:
-        ck.fail("CMP", "S3.box-contains-shape", subj, fa.f.loc, f"expected a single return in contains, found {len(rets)}", construct="return")
-        return
-    conj = _conj(fa, deref(fa, rets[0].value)[0])
-    found = {"shape": False, "low": False, "high": False}
-    others = []
-    for c in conj:
-        if isinstance(c, ast.Compare):
-            k = fa.sym.cmp(c)
-            if k[0] == "rel" and k[1] == "==" and "shape" in k[2]:
-                found["shape"] = True
+    # decision table over (x already an array?, shapes equal?, all(x >= low)?, all(x <= high)?): contains() is evaluated abstractly
+    # under every assignment and must answer True exactly when the three membership conditions hold (positive, NaN-rejecting forms)
+    failures = {"shape": [], "low": [], "high": [], "other": []}
+    for isarr, X in ((True, x), (False, f"np.asarray({x}, dtype=self.dtype)")):
+        ISARR = ("truthy", specv(fa, f"isinstance({x}, np.ndarray)").key(), True)
+        SHAPE = fa.sym.cmp(ast.parse(f"{X}.shape == self.shape", mode="eval").body, fa.cfg.entry.id)
+        LOW = ("truthy", specv(fa, f"np.all({X} >= self.low)").key(), True)
+        HIGH = ("truthy", specv(fa, f"np.all({X} <= self.high)").key(), True)
+
+        def answer(fw_, events, facts_holder=[None]):
+            out = set()
+            for r_, v, st_ in fw_.returns:
+                k = v.key() if v is not None else "None"
+                if k in ("True", "False"):
+                    out.add(k == "True")
+                else:
+                    out.add(fw_.sym.decide(("truthy", k, True)) if fw_.sym.decide is not None else None)
+            return out
+        tab = decision_table(fa, [ISARR, SHAPE, LOW, HIGH], answer)
+        for (a_, sh, lo, hi), got in tab.items():
+            if a_ != isarr:
                 continue
-        if isinstance(c, ast.Call) and fa.sym.canon(c.func) in ("numpy.all", "np.all", "all") and len(c.args) == 1 and isinstance(c.args[0], ast.Compare):
-            k = fa.sym.cmp(c.args[0])
-            if k[0] == "rel" and k[1] == "<=" and not k[3]:
-                p = k[4]
-                if poly_mentions(p, "self.low", sign=+1) and poly_mentions(p, x, sign=-1):
-                    found["low"] = True
-                    continue
-                if poly_mentions(p, "self.high", sign=-1) and poly_mentions(p, x, sign=+1):
-                    found["high"] = True
-                    continue
-        others.append(ast.unparse(c))
-    ck.check(found["shape"], "CMP", "S3.box-contains-shape", subj, fa.loc(rets[0]), "membership requires x.shape == self.shape", "no shape equality conjunct in contains", construct="x.shape == self.shape")
-    ck.check(found["low"], "CMP", "S3.box-contains-low", subj, fa.loc(rets[0]), "membership requires all(x >= low) (NaN-rejecting positive form)",
-             f"no conjunct all(x >= self.low) in positive form (other conjuncts: {others})", construct="np.all(x >= self.low)")
-    ck.check(found["high"], "CMP", "S3.box-contains-high", subj, fa.loc(rets[0]), "membership requires all(x <= high) (NaN-rejecting positive form)",
-             f"no conjunct all(x <= self.high) in positive form (other conjuncts: {others})", construct="np.all(x <= self.high)")
+            want = {bool(sh and lo and hi)}
+            if got != want:
+                which = "shape" if not sh else ("low" if not lo else ("high" if not hi else "other"))
+                failures[which].append(f"x is an array={isarr}, shapes equal={sh}, all(x >= low)={lo}, all(x <= high)={hi}: contains answers {sorted(map(str, got))}, expected {sorted(map(str, want))}")
+    ck.check(not failures["shape"] and not failures["other"], "CMP", "S3.box-contains-shape", subj, fa.f.loc, "membership requires x.shape == self.shape (and holds when all three conditions do)",
+             "; ".join((failures["shape"] + failures["other"])[:2]), construct="x.shape == self.shape")
+    ck.check(not failures["low"], "CMP", "S3.box-contains-low", subj, fa.f.loc, "membership requires all(x >= low) (NaN-rejecting positive form)", "; ".join(failures["low"][:2]), construct="np.all(x >= self.low)")
+    ck.check(not failures["high"], "CMP", "S3.box-contains-high", subj, fa.f.loc, "membership requires all(x <= high) (NaN-rejecting positive form)", "; ".join(failures["high"][:2]), construct="np.all(x <= self.high)")
     # x is only re-bound by a dtype conversion of itself
     for d in fa.rd.defs:
         if d.var == x and d.kind == "assign":
